@@ -134,6 +134,9 @@ def _explore_chunk(args):
                     rec["witness"] = concretise_script(res.world, wm)
                 except Exception as ex:   # noqa
                     rec["witness_error"] = repr(ex)
+            if getattr(e, "hash_used", False):
+                rec["soft_inconclusive"] = ("a native dict/set is keyed by symbolic client strings on this path "
+                                            "(passes are not trusted; counterexamples are replayed)")
             records.append(rec)
         except Inconclusive as ex:
             rec["status"] = "inconclusive"
@@ -228,6 +231,7 @@ class Outcome:
         self.wall = 0.0
         self.witnesses = []
         self.infos = []
+        self.soft = []
 
     def absorb(self, records, stats, cov):
         for k, v in stats.items():
@@ -240,6 +244,8 @@ class Outcome:
                 self.errors.append(r)
             else:
                 self.paths += 1
+                if r.get("soft_inconclusive"):
+                    self.soft.append(r["soft_inconclusive"])
                 self.failed.extend(r["failed"])
                 self.known.extend(r.get("known", []))
                 if "witness" in r:
